@@ -1296,3 +1296,133 @@ Proof.
   apply existsb_exists in Hok. destruct Hok as (l & Hl & E). exists c, l. split; [reflexivity|].
   split; [exact Hl | now apply eqb_rows_true].
 Qed.
+
+(** * Memory layouts of the batches handed in (Store/Layout.v, proofs of C05 reused)
+
+    The array handed to [store[i] = a] is any strided window into a buffer.  What the model writes
+    and what the specification holds is [nd_rows a], the logical content by rows. *)
+From Coq Require Import ZArith.
+From Elfi Require Import Store.Layout Proofs.C05_Layout.
+
+Lemma nd_rows_length a n rs : nd_shape a = n :: rs -> length (nd_rows a) = n.
+Proof. intros E. unfold nd_rows. rewrite E. now rewrite map_length, seq_length. Qed.
+
+(** [array.tobytes('C')], regrouped by rows *)
+Lemma nd_rows_concat a n rs : nd_shape a = n :: rs -> concat (nd_rows a) = map code (tobytes_C a).
+Proof.
+  intros E. unfold nd_rows, tobytes_C. rewrite E. cbn [c_indices].
+  rewrite flat_map_concat_map, map_map, concat_map, map_map.
+  f_equal. apply map_ext. intros r. now rewrite map_map.
+Qed.
+
+Lemma nth_error_seq0 n r : r < n -> nth_error (seq 0 n) r = Some r.
+Proof.
+  intros H. rewrite (nth_error_nth' (seq 0 n) 0) by now rewrite seq_length.
+  now rewrite seq_nth.
+Qed.
+
+(** element [(r, idx)] of the array is cell [lin rs idx] of row [r] *)
+Lemma nd_rows_cell a n rs r idx : nd_shape a = n :: rs -> r < n -> valid idx rs ->
+  exists row, nth_error (nd_rows a) r = Some row /\ nth_error row (lin rs idx) = Some (code (elem a (r :: idx))).
+Proof.
+  intros E Hr Hv. unfold nd_rows. rewrite E.
+  eexists. split.
+  - apply map_nth_error. now apply nth_error_seq0.
+  - apply (map_nth_error (fun idx0 => code (elem a (r :: idx0)))). now apply c_indices_nth.
+Qed.
+
+(** [NpyArray.append] on an open array issues one data write, behind the rows already there, of
+    the rows [nd_rows a]: flattened they are [tobytes('C')] of the array, and the element at every
+    valid multi-index sits at the row-major position of that index -- whatever the strides, the
+    offset and the buffer are. *)
+Theorem append_writes_logical_order m a n rs : nd_shape a = n :: rs -> m_closed m = false ->
+  (exists l0 r, arr_append m true (nd_rows a) = (l0 ++ [LSeek; LWriteData r (nd_rows a)], upd (if m_init m then m else
+       {| m_init := true; m_closed := false; m_rows := 0; m_pend := None; m_mmap := m_mmap m; m_nb := m_nb m |}) (r + n) (Some (r + n)) false, false)) /\
+  concat (nd_rows a) = map code (tobytes_C a) /\
+  forall idx, valid idx (nd_shape a) ->
+    nth_error (concat (nd_rows a)) (lin (nd_shape a) idx) = Some (code (elem a idx)).
+Proof.
+  intros E Hc. split; [|split].
+  - unfold arr_append. rewrite Hc. rewrite (nd_rows_length a n rs E).
+    destruct (m_init m) eqn:Ei; cbn [andb negb].
+    + exists [], (m_rows m). reflexivity.
+    + exists [LSeek; LWritePrefix; LSeek; LWriteHeader 0], 0. reflexivity.
+  - now apply nd_rows_concat with n rs.
+  - intros idx Hv. rewrite (nd_rows_concat a n rs E). apply map_nth_error. now apply tobytes_C_at.
+Qed.
+
+(** two arrays with the same shape and the same element at every valid index have the same
+    logical content, however each of them is laid out *)
+Definition same_content (a b : ndarray) : Prop :=
+  nd_shape a = nd_shape b /\ forall idx, valid idx (nd_shape a) -> elem a idx = elem b idx.
+
+Lemma same_content_rows a b : same_content a b -> nd_rows a = nd_rows b.
+Proof.
+  intros [Es He]. unfold nd_rows. rewrite <- Es. destruct (nd_shape a) as [|n rs] eqn:E; [reflexivity|].
+  apply map_ext_in. intros r Hr. apply map_ext_in. intros idx Hi. f_equal. apply He.
+  constructor; [apply in_seq in Hr; lia | now apply c_indices_valid].
+Qed.
+
+Inductive same_iop : iop -> iop -> Prop :=
+| same_arr i g a b : same_content a b -> same_iop (IArr i g a) (IArr i g b)
+| same_op op : same_iop (IOp op) (IOp op).
+
+Theorem layout_irrelevant xs ys : Forall2 same_iop xs ys -> map lower xs = map lower ys.
+Proof.
+  induction 1 as [|x y xs ys H _ IH]; [reflexivity|]. cbn [map]. rewrite IH. f_equal.
+  destruct H as [i g a b H|op]; [|reflexivity]. cbn [lower]. now rewrite (same_content_rows a b H).
+Qed.
+
+(** well-formed histories as the caller issues them: every array has [bs] rows *)
+Definition iwf_op (bs : nat) (x : iop) : Prop :=
+  match x with
+  | IArr _ g a => g = true /\ exists rs, nd_shape a = bs :: rs
+  | IOp op => wf_op bs op
+  end.
+Definition iwf (bs : nat) (ins : list iop) : Prop := Forall (iwf_op bs) ins.
+
+Lemma iwf_wf bs ins : iwf bs ins -> wf bs (map lower ins).
+Proof.
+  induction 1 as [|x r H _ IH]; [constructor|]. cbn [map]. constructor; [|exact IH].
+  destruct x as [i g a|op]; [|exact H]. destruct H as (Hg & rs & E). cbn [lower]. split; [exact Hg|].
+  now apply nd_rows_length with rs.
+Qed.
+
+Theorem layout_refinement bs o ins : 0 < bs -> iwf bs ins ->
+  forall m f i, start current bs o (map lower ins) = (m, f, i) ->
+    view bs m f = (length (spec (map lower ins)), Some (spec (map lower ins))).
+Proof. intros Hb W. apply refinement; [exact Hb | now apply iwf_wf]. Qed.
+
+(** the specification after [store[i] = a] has the logical content of [a] at place [i] *)
+Lemma nth_error_replace_same {A} i (x : A) L : i < length L -> nth_error (replace i x L) i = Some x.
+Proof. revert i; induction L as [|y L IH]; intros [|i] H; simpl in *; try lia; [reflexivity | apply IH; lia]. Qed.
+
+Lemma spec_step_set_nth l i g b : i <= length l -> nth_error (spec_step l (Set_ i g b)) i = Some b.
+Proof.
+  intros H. cbn [spec_step]. destruct (i =? length l) eqn:E1.
+  - apply Nat.eqb_eq in E1. subst. rewrite nth_error_app2 by lia. now rewrite Nat.sub_diag.
+  - apply Nat.eqb_neq in E1. assert (H2 : i < length l) by lia.
+    apply Nat.ltb_lt in H2 as H3. rewrite H3. now apply nth_error_replace_same.
+Qed.
+
+Lemma eqb_batches_true a b : eqb_batches a b = true -> a = b.
+Proof. unfold eqb_batches. destruct (list_eq_dec (list_eq_dec (list_eq_dec N.eq_dec)) a b); [auto | discriminate]. Qed.
+
+(** soundness of the decidable report clause with respect to layouts: when [ok_reports] accepts the
+    observation made right after [store[i] = a] (which did not raise, [i] at most the number of
+    batches), the store reports at index [i] a batch whose element [(r, idx)] is the element
+    [a[r, idx]] of the array that was handed in, for every valid index *)
+Theorem ok_reports_logical l i g a ops ob obs n rs :
+  ok_reports l (map lower (IArr i g a :: ops)) (ob :: obs) = true -> o_err ob = false -> i <= length l ->
+  nd_shape a = n :: rs ->
+  exists bt b, o_batches ob = Some bt /\ nth_error bt i = Some b /\
+    forall r idx, r < n -> valid idx rs ->
+      exists row, nth_error b r = Some row /\ nth_error row (lin rs idx) = Some (code (elem a (r :: idx))).
+Proof.
+  intros H He Hi E. cbn [map lower ok_reports] in H. rewrite He in H.
+  apply andb_prop in H. destruct H as [H _]. apply andb_prop in H. destruct H as [H _].
+  apply andb_prop in H. destruct H as [_ H].
+  destruct (o_batches ob) as [bt|]; [|discriminate]. apply eqb_batches_true in H. subst bt.
+  exists (spec_step l (Set_ i g (nd_rows a))), (nd_rows a). split; [reflexivity|].
+  split; [now apply spec_step_set_nth|]. intros r idx Hr Hv. now apply nd_rows_cell with n.
+Qed.
